@@ -1,0 +1,23 @@
+//go:build verif
+
+package oracle
+
+// Contract for the oracle module's end blocker, read by /verif/bin/govc. Comment-only: compiled only with
+// -tags verif and adds no code. The preconditions are the store invariants of SetAggregatedReport and RotateQueries
+// (see x/oracle/keeper/zz_contracts_verif.go); the end blocker preserves the one about the rotation counter.
+
+//@ define eround(q, i) = oracle.Query[pair(q, i)]
+//@ define erep(q, r, i) = oracle.Reports[triple(q, r, i)]
+
+//@ func EndBlocker(ctx, k) (err)
+//@ requires [revealed_rounds_have_a_report] forall q bytes :: forall i int :: has(oracle.Query, pair(q, i)) && eround(q, i).HasRevealedReports ==> eround(q, i).Id == i && has(oracle.Reports, triple(q, somebytes("a_reporter", q, i), i))
+//@ requires [reports_are_well_formed] forall q bytes :: forall r bytes :: forall i int :: has(oracle.Reports, triple(q, r, i)) ==> erep(q, r, i).Reporter == accstr(r) && 1 <= erep(q, r, i).Power && erep(q, r, i).Power < 9223372036854775808 && ishex(strip0x(erep(q, r, i).Value))
+//@ requires [a_round_belongs_to_one_query] forall q1 bytes :: forall q2 bytes :: forall r1 bytes :: forall r2 bytes :: forall i int :: has(oracle.Reports, triple(q1, r1, i)) && has(oracle.Reports, triple(q2, r2, i)) ==> q1 == q2
+//@ requires [block_time_not_before_1970] unixms(blocktime(ctx)) >= 0
+//@ requires [tips_are_non_negative] forall q bytes :: forall i int :: has(oracle.Query, pair(q, i)) ==> eround(q, i).Amount >= 0
+//@ requires [rotation_counter_within_the_list] oracle.CyclelistSequencer < count(oracle.Cyclelist)
+//@ requires [round_counter_below_2_64] oracle.QuerySequencer < 18446744073709551615
+//@ requires [windows_fit] forall q bytes :: forall i int :: has(oracle.Query, pair(q, i)) ==> blockheight(ctx) + eround(q, i).RegistrySpecBlockWindow < 18446744073709551616
+//@ modifies oracle.Query, oracle.Aggregates, oracle.Nonces, oracle.CyclelistSequencer, oracle.QuerySequencer, bank.bal, reporter.SelectorTips, H_*, A_*
+//@ ensures [rotation_counter_stays_within_the_list] oracle.CyclelistSequencer < count(oracle.Cyclelist)
+//@ ensures [aggregation_runs_before_rotation] called(SetAggregatedReport) && (err == nil ==> called(RotateQueries))
